@@ -285,8 +285,10 @@ fn db_index_reads(rep: &mut Report, rng: &mut Rng, n: usize) {
     use egglog_reports::ReportLevel;
     use std::panic::{catch_unwind, AssertUnwindSafe};
     const NV: usize = 3;
+    let mut lean_lines: Vec<String> = vec![]; let mut lean_want: Vec<(usize, String, Vec<String>)> = vec![];
     for case in 0..n {
         let mut hist: Vec<String> = vec![];
+        let mut ll: Vec<String> = vec!["tb ixnew 1".into(), "tb new 1 max".into()]; let mut lw: Vec<(usize, String, Vec<String>)> = vec![];
         let threads = if case % 4 == 3 { 4 } else { 1 };
         let res = catch_unwind(AssertUnwindSafe(|| -> Option<String> {
             let pool = if threads > 1 { Some(egglog_concurrency::threadpool::ThreadPool::new(threads)) } else { None };
@@ -307,15 +309,16 @@ fn db_index_reads(rep: &mut Report, rng: &mut Rng, n: usize) {
                 match rng.below(12) {
                     0..=4 => { ts += 1; let k = 1 + rng.below(if dom > 20 { 30 } else { 8 }); let rows: Vec<(u32, u32)> = (0..k).map(|_| (rng.below(dom as usize) as u32, rng.below(NV) as u32)).collect();
                         hist.push(format!("insert@{ts} {rows:?}"));
+                        ll.push(format!("tb merge {}", rows.iter().map(|(k, val)| format!("i:{k},{val},{ts}")).collect::<Vec<_>>().join(" ")));
                         { let mut buf = db.new_buffer(table); for (key, val) in &rows { buf.stage_insert(&[v(*key), v(*val), v(ts)]); match model.get(key) { Some((o, _)) if o >= val => {}, _ => { model.insert(*key, (*val, ts)); } } } }
                         run_in(&mut db, &mut |db| { db.merge_all(); }); }
-                    5 | 6 => { let keys: Vec<u32> = (0..1 + rng.below(5)).map(|_| rng.below(dom as usize) as u32).collect(); hist.push(format!("remove {keys:?}"));
+                    5 | 6 => { let keys: Vec<u32> = (0..1 + rng.below(5)).map(|_| rng.below(dom as usize) as u32).collect(); hist.push(format!("remove {keys:?}")); ll.push(format!("tb merge {}", keys.iter().map(|k| format!("d:{k}")).collect::<Vec<_>>().join(" ")));
                         { let mut buf = db.new_buffer(table); for k in &keys { buf.stage_remove(&[v(*k)]); model.remove(k); } }
                         run_in(&mut db, &mut |db| { db.merge_all(); }); }
-                    7 => { let keys: Vec<u32> = model.keys().cloned().collect(); hist.push("remove-all".into());
+                    7 => { let keys: Vec<u32> = model.keys().cloned().collect(); hist.push("remove-all".into()); ll.push(format!("tb merge {}", keys.iter().map(|k| format!("d:{k}")).collect::<Vec<_>>().join(" ")));
                         { let mut buf = db.new_buffer(table); for k in &keys { buf.stage_remove(&[v(*k)]); } } model.clear();
                         run_in(&mut db, &mut |db| { db.merge_all(); }); }
-                    8 => { hist.push("clear_table".into()); db.clear_table(table); model.clear(); }
+                    8 => { hist.push("clear_table".into()); ll.push("tb clear".into()); db.clear_table(table); model.clear(); }
                     _ => {
                         hist.push("read".into());
                         // direct reads
@@ -346,6 +349,8 @@ fn db_index_reads(rep: &mut Report, rng: &mut Rng, n: usize) {
                             let mut got: Vec<u32> = o.scan(o.all().as_ref()).iter().map(|(_, row)| row[0].rep()).collect(); got.sort();
                             let want: Vec<u32> = model.iter().filter(|(_, (val, _))| *val as usize == c).map(|(k, _)| *k).collect();
                             if got != want { return Some(format!("index-backed query val == {c} returns {got:?}, the map says {want:?}")); }
+                            // the same read on the Lean cached-index model (refreshed only now, like the engine's)
+                            ll.push(format!("tb ixlookup {c}")); lw.push((ll.len() - 1, format!("val == {c}"), got.iter().map(|k| k.to_string()).collect()));
                         }
                         let j = db.get_table(joined);
                         let mut got: Vec<(u32, u32)> = j.scan(j.all().as_ref()).iter().map(|(_, row)| (row[0].rep(), row[1].rep())).collect(); got.sort();
@@ -356,6 +361,8 @@ fn db_index_reads(rep: &mut Report, rng: &mut Rng, n: usize) {
             }
             None
         }));
+        let base = lean_lines.len();
+        if matches!(res, Ok(None)) { for (i, what, keys) in lw { lean_want.push((base + i, format!("case {case}: {what} after {hist:?}"), keys)); } lean_lines.extend(ll); }
         rep.evaluations += 1;
         rep.count("db_level_histories", 1);
         if hist.iter().filter(|h| *h == "read").count() >= 2 && hist.iter().any(|h| h == "clear_table" || h == "remove-all") { rep.note_nontrivial(&hist); }
@@ -363,6 +370,15 @@ fn db_index_reads(rep: &mut Report, rng: &mut Rng, n: usize) {
             Ok(None) => {}
             Ok(Some(f)) => rep.violate("property", "c16-index-read", format!("threads={threads}: {f}"), json!({"history": hist})),
             Err(_) => rep.violate("property", "c16-index-read-panic", format!("threads={threads}: a read through the Database panicked (stale index / subset?)"), json!({"history": hist})),
+        }
+    }
+    match run_driver(&lean_lines) {
+        Err(e) => rep.violate("correspondence", "driver-failure", e, json!({})),
+        Ok(m) => for (i, what, keys) in lean_want {
+            rep.traces_vs_model += 1;
+            // model prints rows `k,val,ts`; compare the key sets
+            let mut got: Vec<String> = m[i].split_whitespace().map(|r| r.split(',').next().unwrap_or("").to_string()).collect(); got.sort_by_key(|k| k.parse::<u32>().unwrap_or(0));
+            if got != keys { rep.violate("correspondence", "c16-index-model-mismatch", format!("Lean cached-index model (theorem C16_index) returns keys {got:?}, the engine's index-backed query {keys:?}: {what}"), json!({"line": lean_lines[i]})); break; }
         }
     }
 }
